@@ -207,6 +207,19 @@ class Shadow:
                 S[z(0)].append("%f" % float(a[1]))
             elif op == "s_set":
                 S[z(0)][z(1)] = a[2]
+            elif op == "s_split":
+                # SplitString: the text without its leading/trailing white space, cut at any of the separator characters, empty
+                # pieces dropped; the pieces are appended
+                dec = lambda t_: "" if t_ == "@" else t_.replace("_", " ").replace("~", "\t")
+                txt, sep = dec(a[1]).strip(" \t\n\r\v\f"), dec(a[2])
+                cur = ""
+                for ch in txt + (sep[:1] or "\0"):
+                    if ch in sep or ch == "\0":
+                        if cur:
+                            S[z(0)].append(cur)
+                        cur = ""
+                    else:
+                        cur += ch
             elif op == "s_extend":
                 S[z(2)] = list(S[z(0)]) + list(S[z(1)])
             else:
@@ -513,7 +526,7 @@ def gen_history(rng, length, kinds):
             elif lv:
                 k = rng.choice(lv)
                 n = len(sh.S[k])
-                o = rng.choice(("append", "append", "appint", "appdbl", "set", "extend", "del"))
+                o = rng.choice(("append", "append", "appint", "appdbl", "set", "extend", "del", "split"))
                 if o == "append":
                     t = ["s_append", k, rng.choice(words)]
                 elif o == "appint":
@@ -522,6 +535,8 @@ def gen_history(rng, length, kinds):
                     t = ["s_appdbl", k, rng.choice((0.5, -12.125, 1e-6, 1e6, 1e24, 9.9e55, 1e57, -3.5e120, 1e300, 123456789.0))]
                 elif o == "set" and n > 0:
                     t = ["s_set", k, rng.randint(0, n - 1), rng.choice(words)]
+                elif o == "split":    # texts with leading/trailing/only white space, empty pieces, the empty text
+                    t = ["s_split", k, rng.choice(("_", "__", "~", "_~_", "@", "_a;b_", "a;;b", ";", "__x__", "a_b", "_;_", "k9;Q;;_")), rng.choice((";", "_;", ";_", ",;"))]
                 elif o == "extend" and em:
                     t = ["s_extend", k, rng.choice(lv), rng.choice(em)]
                 elif o == "del" and rng.random() < 0.3:
@@ -707,6 +722,10 @@ def run(ck, rng, tier):
     hs[4] = [["t_init", 0], ["t_addmat", 0, 2, 2], ["t_set", 0, 0, 1, 1, 2.5], ["t_init", 1], ["t_addmat", 1, 1, 3], ["t_addmat", 1, 2, 1], ["t_addmat", 1, 3, 2],
              ["t_set", 1, 2, 1, 1, -1.0], ["t_copy", 1, 0], ["t_get", 0, 2, 1, 1], ["t_copy", 0, 1], ["t_init", 2], ["t_copy", 2, 1], ["t_addmat", 1, 1, 1]]
     hs[1] = [["s_init", 0], ["s_appdbl", 0, 1e57], ["s_appdbl", 0, -3.5e120], ["s_appdbl", 0, 1e300], ["s_appdbl", 0, 0.25], ["s_new", 1, 2], ["s_extend", 0, 1, 2]]
+    if len(hs) > 5:
+        # texts made of white space only (one blank, a tab, several), the empty text, padded text
+        hs[5] = [["s_init", 0], ["s_split", 0, "_a;b_", ";"], ["s_split", 0, "_", ";"], ["s_split", 0, "~", "_;"], ["s_split", 0, "___", ";"], ["s_split", 0, "@", ";"],
+                 ["s_split", 0, "x", ";"], ["s_new", 1, 1], ["s_split", 1, "_~_", ","]]
     with ThreadPoolExecutor(max_workers=14) as ex:
         results = list(ex.map(lambda o: run_history(exe, o), hs))
     stats = {"sanitizer_reports": 0}
